@@ -204,7 +204,7 @@ def run_shard(ctx):
                 return
     # random longer sequences, including copy()
     menu = menu5 + [("copy", "k0")]
-    for i in range(1500 if ctx.tier == "quick" else 20000):
+    for i in range(10000 if ctx.tier == "quick" else 60000):
         L = rnd.randint(4, 12)
         seq = [list(rnd.choice(menu)) for _ in range(L)]
         case = {"pre": rnd.choice(PRE), "do_deletes": bool(rnd.randrange(2)), "actions": seq,
